@@ -64,7 +64,7 @@ pub struct Oracle {
     pub leader_first_seen: BTreeSet<(u32, u64)>,
     pub prev_role: BTreeMap<u32, RoleKind>,
     /// quorums actually used: ("election", term, members) / ("commit", term of the leader, holders)
-    pub used_quorums: Vec<(String, u64, u64, BTreeSet<u32>)>,
+    pub used_quorums: Vec<(String, u64, u64, BTreeSet<u32>, BTreeSet<u32>)>,
 }
 
 fn cmd_hash(c: &Command) -> u64 {
@@ -147,8 +147,8 @@ impl Oracle {
     /// quorum of an earlier term.
     pub fn check_quorums(&mut self) {
         let qs = self.used_quorums.clone();
-        for (i, (ka, ta, na, qa)) in qs.iter().enumerate() {
-            for (kb, tb, nb, qb) in qs.iter().skip(i + 1) {
+        for (i, (ka, ta, na, qa, ca)) in qs.iter().enumerate() {
+            for (kb, tb, nb, qb, cb) in qs.iter().skip(i + 1) {
                 let disjoint = qa.intersection(qb).next().is_none();
                 if !disjoint {
                     continue;
@@ -160,11 +160,19 @@ impl Oracle {
                     _ => false,
                 };
                 if bad {
+                    // root-cause class: how far apart are the two configurations the quorums
+                    // were computed from (a single-server change differs by one voter)
+                    let delta = ca.symmetric_difference(cb).count();
+                    let class = match delta {
+                        0 => "both computed from the same configuration".to_string(),
+                        1 => "computed from configurations that differ by one voter".to_string(),
+                        _ => "computed from configurations that differ by two or more voters".to_string(),
+                    };
                     self.violate(
                         "C26",
                         format!("{ka}{ta}n{na}-{kb}{tb}n{nb}"),
                         format!(
-                            "two quorums that were actually used do not intersect: {ka} by node {na} in term {ta} used {qa:?}, {kb} by node {nb} in term {tb} used {qb:?}"
+                            "two quorums that were actually used do not intersect ({class}): {ka} by node {na} in term {ta} used {qa:?} of voters {ca:?}, {kb} by node {nb} in term {tb} used {qb:?} of voters {cb:?}"
                         ),
                     );
                 }
@@ -172,8 +180,8 @@ impl Oracle {
         }
     }
 
-    pub fn on_commit_quorum(&mut self, leader: u32, term: u64, holders: BTreeSet<u32>) {
-        let key = ("commit".to_string(), term, leader as u64, holders);
+    pub fn on_commit_quorum(&mut self, leader: u32, term: u64, holders: BTreeSet<u32>, voters: BTreeSet<u32>) {
+        let key = ("commit".to_string(), term, leader as u64, holders, voters);
         if !self.used_quorums.contains(&key) {
             self.used_quorums.push(key);
             self.check_quorums();
@@ -237,10 +245,13 @@ impl Oracle {
                         ),
                     );
                 }
-                if let Some((q, _)) = votes {
-                    self.used_quorums.push(("election".into(), v.term, v.id as u64, q));
+                if let Some((q, asked)) = votes {
+                    let mut cfg = asked;
+                    cfg.insert(v.id);
+                    self.used_quorums.push(("election".into(), v.term, v.id as u64, q, cfg));
                 } else {
-                    self.used_quorums.push(("election".into(), v.term, v.id as u64, [v.id].into_iter().collect()));
+                    let me: BTreeSet<u32> = [v.id].into_iter().collect();
+                    self.used_quorums.push(("election".into(), v.term, v.id as u64, me.clone(), me));
                 }
                 self.check_quorums();
             }
@@ -478,6 +489,8 @@ impl Oracle {
         self.next_expected.hash(&mut h);
         self.notified.hash(&mut h);
         self.notified_by_term.hash(&mut h);
+        self.used_quorums.hash(&mut h);
+        self.leader_first_seen.hash(&mut h);
         self.violations.len().hash(&mut h);
         h.finish()
     }
